@@ -51,6 +51,10 @@ THE SOFTWARE.
 
 #include <amgcl/io/ios_saver.hpp>
 
+#ifdef AMGCL_VERIF
+#  include <amgcl/detail/verif.hpp>
+#endif
+
 /* Performance measurement macros
  *
  * If AMGCL_PROFILING macro is defined at compilation, then AMGCL_TIC(name) and
